@@ -1,0 +1,21 @@
+//go:build verif
+
+// Contracts for the arbitrary-precision vector type (used by property C16). The operations are exact real
+// arithmetic on float64 inputs (math/big at sufficient precision); they are used as deterministic
+// uninterpreted functions: nothing about their values is assumed. Comment-only; build tag verif.
+
+package r3
+
+//@ property C16
+
+//@ func PreciseVectorFromVector(v Vector) PreciseVector
+//@   assumed "exact conversion (math/big); used as a deterministic function of its argument"
+//@   pure
+
+//@ func (v PreciseVector) Cross(ov PreciseVector) PreciseVector
+//@   assumed "exact cross product (math/big); used as a deterministic function of its arguments"
+//@   pure
+
+//@ func (v PreciseVector) Vector() Vector
+//@   assumed "rounding to float64; used as a deterministic function of its argument"
+//@   pure
